@@ -42,9 +42,15 @@ def main():
         res = json.load(open(os.path.join(VERIF, "seeded", d, "result.json"))) if os.path.exists(os.path.join(VERIF, "seeded", d, "result.json")) else {}
         return d, {p: (res.get(p, {}).get("caught"), res.get(p, {}).get("signature"), res.get(p, {}).get("replay_kind")) for p in props}, r.stdout[-400:] if r.returncode else ""
 
+    # C17 and C19 regenerate W1 files inside the shared Coq build directory: two seeded trees must not be tried at once
+    shared = [t for t in todo if set(t[1]) & {"C17", "C19"}]
+    rest = [t for t in todo if t not in shared]
     with ThreadPoolExecutor(a.jobs) as ex:
-        for d, res, err in ex.map(one, todo):
+        for d, res, err in ex.map(one, rest):
             print(d, res, err.replace("\n", " | ")[:300], flush=True)
+    for t in shared:
+        d, res, err = one(t)
+        print(d, res, err.replace("\n", " | ")[:300], flush=True)
 
 
 if __name__ == "__main__":
